@@ -29,6 +29,7 @@ ASSUMPTIONS = [
     "a float defect above the tolerance is not reported when the model is numerically ill-conditioned at that input: a relative perturbation of 1e-6 of the input or of the parameters already moves an output block by more than tolerance/4 (label ill_conditioned_excluded)",
     "evaluations whose outputs are non-finite or exceed 1e6 in magnitude on either side (float32 ill-conditioning of the eigh whitening far from initialisation) are excluded and counted under the label nonfinite_or_huge_excluded",
 ]
+CLEAR_CACHES_EVERY = 12
 CONFIG = {
     "quick": {"examples": 64, "shards": 16, "shrink_s": 60, "time_budget_s": 280},
     "thorough": {"examples": 800, "shards": 16, "shrink_s": 240, "time_budget_s": 1500},
